@@ -3,7 +3,11 @@ TESTS = [
     T("poolfile", "TestC14PoolFileLocksReleased",
       {"checks": 2500, "shards": 2, "timeout": 300},
       {"checks": 40000, "shards": 6, "timeout": 1500}),
+    T("poolfile", "TestC14NFSHandleResolveTerminates",
+      {"checks": 3000, "shards": 2, "timeout": 300},
+      {"checks": 60000, "shards": 4, "timeout": 1500}),
 ]
 ASSUMPTIONS = [
+    "C14 NFS file handle resolution (nfs_handle_allocator.go): the HandleResolvers are the repository's own (resolvable CAS file factory, character device factory); a resolve that does not return is judged by a stall watchdog whose goroutine dump must show the call blocked in sync.RWMutex inside nfs_handle_allocator.go (no progress during 20 on-time one-second ticks), anything else is inconclusive",
     "C14 pool-backed files (pool_backed_file_allocator.go, nfs_handle_allocator.go): the state machine of C16 judged for locks: one file per case, raw or behind the FUSE / NFS stateful handle allocator; one-shot pool I/O faults and CAS failures are the failing calls; 'lock' covers the file's mutex and its frozen state (mutating calls wait while an upload or frozen reader holds the file, so a failed upload that stays 'frozen' blocks later calls on the same file for ever); the verdict 'blocked for ever' is synctest's (nothing in the bubble can run)",
 ]
